@@ -15,6 +15,7 @@ import BV.C05.Lemmas14
 import BV.C05.Lemmas15
 import BV.C05.Lemmas16
 import BV.C05.Lemmas17
+import BV.C05.Lemmas18
 import BV.Generated.C05
 namespace BV.C05
 open Treap
@@ -313,6 +314,31 @@ theorem cursor_mixed {K V : Type} (cmp : K → K → Ordering) (h : OrdLaws cmp)
     | cons op ops ih => intro c; simp only [List.foldl_cons]; rw [hstep, ih]
   rw [← hfold]
   exact (Lemmas.run_inv S ops curInit none Lemmas.init_inv_cur).1
+
+/-- `cursor_delete_then_move`: `Cursor.Delete` in the middle of ANY walk. Deleting the entry `e` the
+cursor stands on turns the layers into `B' = B` without `e` and a shadow predicate that also covers
+`e`'s key; the cursor keeps its iterators. The next `Next` lands on the successor and the next `Prev`
+on the predecessor of `e`'s key in the NEW merged view, whatever the direction of the walk before. -/
+theorem cursor_delete_then_move {K V : Type} (cmp : K → K → Ordering) (h : OrdLaws cmp) (sh : K → Bool)
+    (A B : List (K × V)) (hA : SortedKeys cmp A) (hB : SortedKeys cmp B)
+    (hsh : ∀ y ∈ B, sh y.1 = true) (ops : List (MOp K)) (e : K × V)
+    (he : (ops.foldl (fStep cmp sh A B) curInit).m.entry = some e) :
+    let sh' := Lemmas.shDel cmp sh e.1
+    let B' := eraseKey cmp e.1 B
+    let M' := mergeSorted cmp (A.filter (fun x => !sh' x.1)) B'
+    (fNext cmp sh' A B' (ops.foldl (fStep cmp sh A B) curInit)).m.entry = firstGT cmp e.1 M' ∧
+    (fPrev cmp sh' A B' (ops.foldl (fStep cmp sh A B) curInit)).m.entry = lastLT cmp e.1 M' := by
+  intro sh' B' M'
+  have S : Lemmas.Setting cmp sh A B := ⟨h, hA, hB, hsh⟩
+  have S' := Lemmas.setting_after_delete S e.1
+  have hinv := Lemmas.run_inv S ops curInit none Lemmas.init_inv_cur
+  have hc : ops.foldl (Lemmas.specU cmp (Lemmas.unsh sh A) B) none = some e := by rw [← hinv.1]; exact he
+  rw [hc] at hinv
+  obtain ⟨h1, h2⟩ := Lemmas.delete_then_move S _ e hinv
+  have hd : ∀ x ∈ Lemmas.unsh sh' A, ∀ y ∈ B', cmp x.1 y.1 ≠ .eq := fun x hx => S'.absentY hx
+  constructor
+  · rw [h1.1]; exact (Lemmas.firstGT_merge h e.1 _ _).symm
+  · rw [h2.1]; exact (Lemmas.lastLT_merge h e.1 _ _ S'.sortedX S'.sortedB hd).symm
 
 /-- the repaired algorithm on the F-C05-a witness: First, Next, Next, Prev now stands on key 2 -/
 example : ([MOp.first, .next, .next, .prev].foldl (fStep cmpNat witnessSh witnessA witnessB) curInit).m.entry
